@@ -16,15 +16,14 @@ pub static mut H_EXT: Uf = Uf::new();     // calc_raw_data_hash(extension)
 pub static mut H_EXTRA: Uf = Uf::new();   // ExtraHashView(uncles_hash, Option<extension hash>).extra_hash()
 pub static mut H_ROOT: Uf = Uf::new();    // HeaderDigest::calc_mmr_hash
 pub static mut DIGEST_OK: Uf = Uf::new(); // HeaderDigest::verify() of a header's own digest
-pub struct RawData { pub prefix: u8 }
-impl RawData { pub fn starts_with(&self, s: &[u8]) -> bool { s.len() == 1 && s[0] == self.prefix } }
+/// `packed::Bytes::raw_data()` -> `bytes::Bytes`: derefs to the content bytes
+pub struct RawData { pub b: [u8; 2], pub len: usize }
+impl std::ops::Deref for RawData { type Target = [u8]; fn deref(&self) -> &[u8] { &self.b[..self.len] } }
+impl AsRef<[u8]> for RawData { fn as_ref(&self) -> &[u8] { &self.b[..self.len] } }
 impl PBytes {
-    /// model of packed::Bytes: `id` identifies the content; the content begins with the 32 bytes identified by `prefix`
-    pub fn raw_data(&self) -> RawData { RawData { prefix: ext_prefix(self.0) } }
-    pub fn calc_raw_data_hash(&self) -> Byte32 { unsafe { Byte32(H_EXT.apply(self.0 as u64)) } }
+    pub fn raw_data(&self) -> RawData { RawData { b: self.b, len: self.len as usize } }
+    pub fn calc_raw_data_hash(&self) -> Byte32 { unsafe { Byte32(H_EXT.apply(self.key())) } }
 }
-pub static mut EXT_PREFIX: [u8; 4] = [0; 4];
-pub fn ext_prefix(id: u8) -> u8 { unsafe { EXT_PREFIX[(id & 3) as usize] } }
 impl HeaderDigest { pub fn calc_mmr_hash(&self) -> Byte32 { unsafe { Byte32(H_ROOT.apply(((self.td.0 & 0xffff) << 24) ^ ((self.end_number & 0xffff) << 8) ^ self.id as u64)) } } }
 pub struct ExtraHashView { u: Byte32, e: Option<Byte32> }
 impl ExtraHashView {
@@ -85,7 +84,7 @@ mod harness {
     }
     fn any_vh() -> VerifiableHeader {
         let ext: Option<u8> = kani::any();
-        VerifiableHeader { header: any_hv(), uncles: kani::any(), ext: ext.map(|e| PBytes(e & 3)),
+        VerifiableHeader { header: any_hv(), uncles: kani::any(), ext: ext.map(|l| PBytes::of(l % 3, kani::any(), kani::any())),
             root: HeaderDigest { td: U256(kani::any()), end_number: kani::any(), id: kani::any() } }
     }
     fn td(h: &VerifiableHeader) -> u64 { h.root.td.0.wrapping_add(h.header.diff) }
@@ -271,8 +270,7 @@ mod harness {
     // ------------------------------------------------------------------------------------------------
     #[kani::proof] #[kani::unwind(8)]
     fn patched_valid() {
-        unsafe { EXT_PREFIX = kani::any(); }
-        let vh = any_vh();
+                let vh = any_vh();
         let act: u64 = kani::any(); kani::assume(act < EpochNumberWithFraction::NUMBER_MAXIMUM_VALUE);
         let got = vh.patched_is_valid(act);
         // specification, with the same uninterpreted functions
@@ -281,7 +279,7 @@ mod harness {
         let mut want = true;
         if above {
             if vh.header.number == 0 { if !(vh.root.td.0 == 0 && vh.root.end_number == 0 && vh.root.id == 0) { want = false; } }
-            else { match vh.ext { None => want = false, Some(x) => { if ext_prefix(x.0) != vh.root.calc_mmr_hash().0 { want = false; } } } }
+            else { match vh.ext { None => want = false, Some(x) => { if !(x.len >= 1 && x.b[0] == vh.root.calc_mmr_hash().0) { want = false; } } } }
         }
         let eh = ExtraHashView::new(Byte32(vh.uncles), vh.ext.map(|x| x.calc_raw_data_hash())).extra_hash();
         if eh.0 != vh.header.extra_hash { want = false; }
@@ -294,7 +292,7 @@ mod harness {
     // O1.4: verify_mmr_proof
     // ------------------------------------------------------------------------------------------------
     fn mmr<const N: usize>() {
-        unsafe { EXT_PREFIX = kani::any(); MMR_ANSWER = kani::any(); kani::assume(MMR_ANSWER < 3); MMR = None; }
+        unsafe { MMR_ANSWER = kani::any(); kani::assume(MMR_ANSWER < 3); MMR = None; }
         let last = any_vh();
         let act: u64 = kani::any(); kani::assume(act < EpochNumberWithFraction::NUMBER_MAXIMUM_VALUE);
         let n: usize = kani::any(); kani::assume(n <= N);
